@@ -34,7 +34,7 @@ def mk(kind, d, a=6):
 
 class C15(DiffProperty):
     pid = "C15"
-    claimed = False
+    claimed = True
     coq_dir = "C15"
     extract_vo = "C15/Extract.vo"
     mlname = "c15_model"
@@ -52,9 +52,10 @@ class C15(DiffProperty):
             "x = mpt++ reference<T> under set_instance/copy-assign/copy-construct/move/detach/raw addref+unref/forced counter; "
             "r,y = the bare counter through mpt_refcount_raise/lower and refcount::raise/lower from 0,1,2,max-1,max. quick: EVERY "
             "ordered pair (old kind, new kind) x shared/unshared x {conversion, traits init, rcopy} x target empty/held/same, "
-            "every history of length <= 3 (x: <= 3) over a per-kind alphabet, every counter boundary value x every sharing "
-            "operation, every raise/lower sequence of length <= 4 from each start value, plus 2500 random histories of length "
-            "4..14 mixing kinds; thorough: length <= 4 and 60000 random histories. A case is non-trivial when it shares, "
+            "every history of length <= 2 over a per-kind alphabet of 17..25 operations (plus a 6 % sample of length 3; x: "
+            "length <= 2 over 20 operations), every counter boundary value x every sharing operation, every raise/lower "
+            "sequence of length <= 4 from each of 8 start values, plus 2500 random histories of length 4..14 mixing kinds; "
+            "thorough: all histories of length <= 3, raise/lower sequences <= 8 and 60000 random histories. A case is non-trivial when it shares, "
             "replaces or destroys at least one handle (every generated case does); distinct = distinct case text")
     modelled = ("mptcore/misc/refcount.c, array/buffer_alloc.c (vtable addref/unref/detach for untyped content), array/array_clone.c, "
                 "array/array_traits.c, meta/meta_reference_traits.c, mptio/input_traits.c, convert/data_converter.c "
@@ -78,7 +79,9 @@ class C15(DiffProperty):
                   "unshareable kinds have exactly one handle (C15_unique_has_one_handle); an object is destroyed iff no handle on "
                   "it is left and no handle refers to a destroyed object (C15_destroy_exactly_at_zero), no history touches a "
                   "destroyed object (C15_history_never_faults), an unreachable object lives only while its counter is forced "
-                  "(C15_unreachable_only_if_forced); the invariant is inductive from any state (C15_step_preserves_invariant); "
+                  "(C15_unreachable_only_if_forced); the counter-free specification's derived observation (alive, count, leak "
+                  "verdict) of every reached state equals the model's (C15_spec_observation_agrees, C15_spec_leak_agrees); the "
+                  "invariant is inductive from any state (C15_step_preserves_invariant); "
                   "assignment through conversion releases the old referent once and retains the new one once, or fails / is a "
                   "self-assignment without effect (C15_assign_releases_old_once_retains_new_once, C15_assign_refused_unchanged, "
                   "C15_assign_same_unchanged); the model is tied to the code on every run by differential execution under "
@@ -86,13 +89,14 @@ class C15(DiffProperty):
     level_note = ("trusted: Coq kernel; hand transcription of the C/C++ sources (validated by the correspondence run, not verified); "
                   "extraction and OCaml driver; harness. PARTIAL: the executable handle-multiset specification (RefcountSpec.v: no "
                   "counter, alive/count derived from the handles), which is the oracle of the check, is tied to the model "
-                  "state-wise by the theorems (counter = handles, destroyed <-> none) but step-wise (which slot holds what after "
-                  "each operation, refusal decisions) only by the correspondence run: there is no Coq proof that srun = mrun. "
+                  "state-wise by theorems (its observation of the handles of every reached model state is the model's observation) "
+                  "but its own step function (which slot holds what after each operation, which share is refused) is tied to the "
+                  "model only by the correspondence run: there is no Coq proof that srun tracks abs(mrun) step by step. "
                   "Kinds whose destruction is seen only through ASan/LSan (stream input, rawdata, reply context, geninfo, meta "
                   "buffer, config root) are correspondence-level for the destruction TIME; buffer contents / typed elements "
                   "(C04/C05) and reply transport (C12) are outside. The theorems hold for the tree with the five fix: commits of "
                   "branch verif-C15 (data_converter.c, input_traits.c, array_clone.c, buffer_alloc.c detach failure path). "
-                  "All 12 theorems closed under the global context.")
+                  "All 14 theorems closed under the global context.")
     technique = "Coq invariant proof over all operation histories (counter = handle multiset) + differential correspondence check"
     assumptions = ["malloc succeeds", "single thread", "uintptr_t has 64 bits"]
 
